@@ -3,6 +3,9 @@ import Ivg.Lemmas.RenderHist
 import Ivg.Gen.Tie.Dc1
 import Ivg.Gen.Tie.RendererFields
 import Ivg.Gen.Tie.Code.RenderRegs
+import Ivg.Gen.Tie.Code.Resolve
+import Ivg.Gen.Tie.Code.Ranges
+import Ivg.Gen.Tie.Code.GradAt
 import Ivg.Obligations
 /-!
 # C04 — the Renderer fills each path with the paint the specification's machine prescribes
@@ -409,4 +412,16 @@ end Ivg.Props.C04
   Ivg.Gen.Tie.renderer_SetNReg_code_tie,
   Ivg.Gen.Tie.positiveInfinity_code_tie,
   Ivg.Gen.Tie.renderer_Reset_code_tie,
-  Ivg.Gen.Tie.renderer_Reset_code_tie_frame]
+  Ivg.Gen.Tie.renderer_Reset_code_tie_frame,
+  -- regenerated code with loops/recursion (translator, fuel) = model, for all inputs and sufficient fuel: Resolve, Ranges, GradAt
+  Ivg.Gen.Tie.color_Resolve_code_tie,
+  Ivg.Gen.Tie.color_Resolve_code_tie_badTyp,
+  Ivg.Gen.Tie.renderer_SetCReg_code_tie,
+  Ivg.Gen.Tie.renderer_SetCReg_code_tie',
+  Ivg.Gen.Tie.appendRanges_code_tie,
+  Ivg.Gen.Tie.appendRanges_code_tie_nonempty,
+  Ivg.Gen.Tie.gradient_Init_code_tie,
+  Ivg.Gen.Tie.gradient_At_code_tie,
+  Ivg.Gen.Tie.gradient_At_code_tie_fits,
+  Ivg.Gen.Tie.gradient_Init_code_tie',
+  Ivg.Gen.Tie.renderer_initGradient_code_tie]
